@@ -3,6 +3,7 @@
    steps, SIGKILLs and restarts).  Proofs: proofs/MetaProofs.v. *)
 From Coq Require Import List NArith Bool Arith.
 From NSQV Require Import gen.MetaShape model.Judge model.Names model.MetaSrc model.Meta proofs.MetaProofs proofs.MetaPause proofs.MetaSeq.
+From NSQV Require Import model.PathLock proofs.PathLockProofs.
 Import ListNotations.
 Open Scope nat_scope.
 
@@ -110,6 +111,66 @@ Theorem C06_pause_acked : forall (t : name) (b : bool) (i : N),
             (forall e, In e (f_doc c) -> dt_name e = t -> dt_paused e = b).
 Proof. exact pause_acked_topic. Qed.
 Print Assumptions C06_pause_acked.
+
+(* ------------------------------------------------------------------ the data-path lock
+   "A second nsqd pointed at a data path that is in use refuses to start."  Model:
+   model/PathLock.v -- any number of daemon processes on one data path; the life of a daemon
+   is the step list BUILT FROM THE SOURCE TABLE (nsqd.New takes the flock before anything
+   else, program.Start loads / persists / starts Main, NSQD.Exit in source order, what
+   DirLock.Lock / Unlock do); flock(2) itself is modelled: one owner, non-blocking, dropped
+   by the kernel when the process ends.  Schedules: starts, steps, background writes and
+   SIGKILLs of all processes in any interleaving.
+
+   The source has the shape the model reads it with: DirLock.Lock opens the directory, flocks
+   it LOCK_EX|LOCK_NB and KEEPS the descriptor; and in the daemon's life every step that reads
+   or writes the data path is made while the flock is held, which is given up only after
+   waitGroup.Wait() has joined every background goroutine. *)
+Theorem C06_lock_source_shape : dirlock_src = true /\ life_ok life_src = true.
+Proof. exact lock_shape. Qed.
+Print Assumptions C06_lock_source_shape.
+
+(* In every schedule no process ever reads or writes the data path, or has background
+   goroutines (which write it) running, at an instant at which it does not hold the flock. *)
+Theorem C06_path_never_used_unlocked : forall evs, clash (lrun linit evs) = false.
+Proof. exact path_no_clash. Qed.
+Print Assumptions C06_path_never_used_unlocked.
+
+(* A process uses the path from its successful flock until it has neither background
+   goroutines nor path steps left -- through its whole graceful exit, up to the return of
+   waitGroup.Wait().  At every instant of every schedule at most one process does. *)
+Theorem C06_path_exclusive : forall evs d1 d2,
+  in_use (lrun linit evs) d1 -> in_use (lrun linit evs) d2 -> d1 = d2.
+Proof. exact path_exclusive. Qed.
+Print Assumptions C06_path_exclusive.
+
+(* While d1 uses the path, the flock step of any other process fails and that process ends
+   (nsqd.New returns the error, apps/nsqd exits non-zero) -- it has not touched the path
+   (previous theorems) and d1 and the lock are as they were. *)
+Theorem C06_second_refused : forall evs d1 d2 p s r,
+  let w := lrun linit evs in
+  in_use w d1 -> d2 <> d1 -> procs w d2 = Some p -> todo p = (LsFlock, s) :: r ->
+  let w' := lstep_src w (EvStep d2) in
+  procs w' d2 = None /\ procs w' d1 = procs w d1 /\ owner w' = Some d1 /\ clash w' = false.
+Proof. exact path_second_refused. Qed.
+Print Assumptions C06_second_refused.
+
+(* non-vacuity: a second daemon started while the first serves is refused; after a graceful
+   exit, and after a SIGKILL, the path is taken over; and were the flock given up before the
+   background goroutines are joined (Exit: ... Unlock ; dl.Unlock ; close(exitChan) ; Wait),
+   the static check fails and a second daemon serves while the first one still writes *)
+Example C06_witness_lock_refused :
+  let w := lrun linit (up_to_serving 0 ++ up_to_serving 1) in
+  serving w 0 = true /\ procs w 1 = None /\ owner w = Some 0 /\ clash w = false.
+Proof. exact witness_refused_while_serving. Qed.
+Example C06_witness_lock_takeover :
+  let w := lrun linit (whole_life 0 ++ up_to_serving 1 ++ [EvKill 1] ++ up_to_serving 2) in
+  procs w 0 = None /\ procs w 1 = None /\ serving w 2 = true /\ owner w = Some 2 /\ clash w = false.
+Proof. exact witness_takeover_after_exit_and_kill. Qed.
+Example C06_witness_lock_early_unlock_refuted :
+  life_ok life_early = false /\
+  let w := lrun_ life_early linit (EvStart 0 :: repeat (EvStep 0) (boot_steps + 6) ++ up_to_serving 1 ++ [EvBg 0]) in
+  serving w 0 = true /\ serving w 1 = true /\ owner w = Some 1 /\ clash w = true.
+Proof. exact witness_early_unlock_refuted. Qed.
 
 (* ------------------------------------------------------------------ non-vacuity *)
 Definition P8 : list ev := repeat (EPersist 4096%N) 8.
